@@ -499,7 +499,7 @@ func setLinksExhaustive(rep *report.Report, maxLen int) {
 		panic(err)
 	}
 	defer db.Close()
-	bIds := []string{"b1", "b2", "b3", "b4"}
+	bIds := []string{"b1", "b1x", "b3", "b3y"}
 	err = db.Update(nil, func(ctx boltz.MutateContext) error {
 		if err := sc.A.Create(ctx, world.NewRec("as", "a1").With("label", "L")); err != nil {
 			return err
@@ -610,7 +610,7 @@ func C05(tier string) int {
 	rep.Assume("bbolt transactions are atomic and isolated (trusted base)")
 	rep.Assume("universe: 2 entities per side (3 on one side in thorough), counts 0..2 (0..3 thorough); negative counts are outside the property's domain")
 	rep.Set("rule", "BFS to closure; oracle = complete image from reference model (both link directions, both counts), API reads from both sides, return values; SetLinks: all (current set, requested list) pairs")
-	a2, b2 := []string{"a1", "a2"}, []string{"b1", "b2"}
+	a2, b2 := []string{"a1", "a1x"}, []string{"b1", "b1x"} // one id is a prefix of the other on purpose
 	run := func(sc *linkScenario, maxTrans int64) {
 		runE1(rep, sc, explore.Config{Programs: explore.SingleOps(len(sc.Ops())), MaxTrans: maxTrans})
 	}
@@ -619,7 +619,7 @@ func C05(tier string) int {
 		run(newLinkScenario("ref-counted 2x2 counts<=2", a2, b2, false, true, 2), 0)
 		setLinksExhaustive(rep, 3)
 	} else {
-		run(newLinkScenario("links 2x3", a2, []string{"b1", "b2", "b3"}, true, false, 0), 0)
+		run(newLinkScenario("links 2x3", a2, []string{"b1", "b1x", "b2"}, true, false, 0), 0)
 		run(newLinkScenario("ref-counted 2x2 counts<=3", a2, b2, false, true, 3), 0)
 		run(newLinkScenario("links+ref-counted 2x2 counts<=2", a2, b2, true, true, 2), 12_000_000)
 		setLinksExhaustive(rep, 4)
